@@ -357,6 +357,22 @@ func runPath(P *Program, entry *ssa.Function, cfg *Config, solver *Solver, prefi
 
 func (in *Interp) assertPC(term string) {
 	in.solver.Send("(assert " + term + ")")
+	if in.pcLits == nil {
+		in.pcLits = map[string]bool{}
+	}
+	in.pcLits[term] = true
+}
+
+// pcKnown reports whether term (or its negation) is literally one of the asserted path
+// constraints, so that a branch on it needs no solver call (same decision record as a solved one).
+func (in *Interp) pcKnown(term string) (val, known bool) {
+	if in.pcLits[term] {
+		return true, true
+	}
+	if in.pcLits["(not "+term+")"] {
+		return false, true
+	}
+	return false, false
 }
 
 // branch decides a symbolic condition, forking when both sides are feasible.
@@ -375,6 +391,14 @@ func (in *Interp) branch(c *sym, tag string) bool {
 		}
 		in.assertPC("(not " + c.t + ")")
 		return false
+	}
+	if v, known := in.pcKnown(c.t); known {
+		d := decision{0, 2, tag}
+		if v {
+			d.choice = 1
+		}
+		p.taken = append(p.taken, d)
+		return v
 	}
 	rt := in.solver.Check(c.t)
 	if rt == "unsat" {
